@@ -30,7 +30,7 @@ impl<'a> Visitor for V<'a> {
                 return Err(format!("{d}: size() = {} but the encoding has {} bytes", post.size, post.enc.len()));
             }
         }
-        if matches!(cx.fam(), FamId::Var | FamId::Wide | FamId::Tiny) {
+        if matches!(cx.fam(), FamId::Var | FamId::Wide | FamId::Tiny | FamId::Mid) {
             return Ok(()); // exact refusal is claimed for 64-byte signatures only
         }
         if let Some(op) = cx.op {
@@ -257,7 +257,29 @@ impl Property for C09 {
             ]
             .into_iter()
         });
-        Box::new(it.chain(ex).chain(wide))
+        // custom scheme whose signature length (50..=61) changes from one signature to the next across the
+        // 55/56 boundary of the RLP string header: records right at the limit, small updates
+        let mid = (1..=(if quick { 30u64 } else { 200 })).flat_map(|seq| {
+            let mut s = [0u8; 32];
+            s[0] = 3;
+            s[5] = seq as u8;
+            let keys = vec![Secret(s)];
+            let mut v = Vec::new();
+            for target in [300usize, 299, 298, 297] {
+                let mut pairs = vec![(b"udp".to_vec(), rlp::encode_uint(9))];
+                history::fit_decoded(FamId::Mid, &keys[0].0, seq, &mut pairs, target);
+                for op in [
+                    Op::SetPort { which: PortKey::Tcp, port: 1, k: 0 },
+                    Op::Insert { key: b"a".to_vec(), val: TVal::U8(1), k: 0 },
+                    Op::SetPort { which: PortKey::Udp, port: 300, k: 0 },
+                    Op::RemoveKey { key: b"absent".to_vec(), k: 0 },
+                ] {
+                    v.push(Case::Hist(History { fam: FamId::Mid, keys: keys.clone(), init: Init::Decoded { seq, pairs: pairs.clone() }, ops: vec![op], fault_at: None, alt_keys: vec![] }));
+                }
+            }
+            v.into_iter()
+        });
+        Box::new(it.chain(ex).chain(wide).chain(mid))
     }
     fn fuzz_plans(&self) -> Vec<(&'static str, u64)> {
         vec![("history", 10000)]
